@@ -20,7 +20,8 @@ RULE = ('sharded: a generated pipeline (filter on/off, one or two stacked exact 
         'RemoteIteratorQueue; merge contract: merge_states(states[:j], strict_states_cnt=n); oracle = the same pipeline run in one '
         'process: equal multiset of output batches, equal aggregate, exactly one final AggregateResult; fewer states than expected '
         '=> ValueError; non-trivial = >= 2 workers, >= 2 shards and >= 2 batches per shard (sharded) / a remote stage '
-        '(interleaved); distinct = distinct canonical case JSON')
+        '(interleaved); distinct = distinct canonical case JSON'
+        "; also: strict merge over two aggregating stages (list and stream), a generated polling delay of the pool's output queue, 130..200 batches")
 ASSUMPTIONS = [
     'in-process fake transport; real OS threads and asyncio loops: oracles are schedule independent, a 90 s watchdog catches hangs '
     '(re-run before reporting)',
